@@ -100,6 +100,8 @@ func symxPermuteMaps(on bool) {}
 
 func symxPermuteMapsTwoOrders(on bool) {}
 
+func symxRealLibrary(name string) {}
+
 func symxPanicMode(mode string) {}
 
 func symxIsSymbolic() bool { return false }
